@@ -1747,6 +1747,182 @@ Proof.
   destruct H as [H _]. unfold colfac. destruct (Nat.eqb m m0); field; auto.
 Qed.
 
+
+(* ------------------------------------------------------------------ *)
+(* linearity of the horizontal recursion: un-normalised linearity for the Boys-type kernels,
+   where the contraction happens BEFORE the horizontal transfer *)
+(* ------------------------------------------------------------------ *)
+Definition clin (c1 c2 : F) (t t1 t2 : cube (F:=F)) : Prop :=
+  forall x y z, cget K t x y z = c1 * cget K t1 x y z + c2 * cget K t2 x y z.
+
+Lemma cget_nil x y z : cget K [] x y z = 0.
+Proof. unfold cget. now destruct x, y, z. Qed.
+
+Lemma cget_mk3 n f x y z :
+  cget K (mk n (fun x => mk n (fun y => mk n (fun z => f x y z)))) x y z
+  = if (x <? n) && (y <? n) && (z <? n) then f x y z else 0.
+Proof.
+  unfold cget. destruct (Nat.ltb_spec x n) as [Hx|Hx]; cbn [andb].
+  - rewrite nth_mk by exact Hx. destruct (Nat.ltb_spec y n) as [Hy|Hy]; cbn [andb].
+    + rewrite nth_mk by exact Hy. destruct (Nat.ltb_spec z n) as [Hz|Hz].
+      * now rewrite nth_mk by exact Hz.
+      * apply nth_overflow. now rewrite mk_length.
+    + rewrite (nth_overflow (mk n (fun y0 => mk n (fun z0 => f x y0 z0))) []) by (now rewrite mk_length).
+      now destruct z.
+  - rewrite (nth_overflow (mk n (fun x0 => mk n (fun y0 => mk n (fun z0 => f x0 y0 z0)))) [])
+      by (now rewrite mk_length). now destruct y, z.
+Qed.
+
+Lemma clin_nil c1 c2 : clin c1 c2 [] [] [].
+Proof. intros x y z. rewrite cget_nil. ring. Qed.
+
+Lemma hstep_lin L axis ab c1 c2 t t1 t2 : clin c1 c2 t t1 t2 ->
+  clin c1 c2 (hstep K L axis ab t) (hstep K L axis ab t1) (hstep K L axis ab t2).
+Proof.
+  intros H x y z. unfold hstep. rewrite !cget_mk3.
+  destruct ((x <? S L) && (y <? S L) && (z <? S L)); [|ring].
+  destruct axis as [|[|a]].
+  - destruct (Nat.eqb x L); [ring|]. rewrite !H. ring.
+  - destruct (Nat.eqb y L); [ring|]. rewrite !H. ring.
+  - destruct (Nat.eqb z L); [ring|]. rewrite !H. ring.
+Qed.
+
+Lemma hiter_length L axis ab n t : length (hiter K L axis ab n t) = S n.
+Proof. revert t. induction n as [|n IH]; intros t; cbn [hiter length]; [reflexivity|]. now rewrite IH. Qed.
+
+Lemma hiter_lin L axis ab c1 c2 n : forall t t1 t2 k, clin c1 c2 t t1 t2 ->
+  clin c1 c2 (nth k (hiter K L axis ab n t) []) (nth k (hiter K L axis ab n t1) []) (nth k (hiter K L axis ab n t2) []).
+Proof.
+  induction n as [|n IH]; intros t t1 t2 k H; cbn [hiter].
+  - destruct k as [|k]; cbn [nth]; [exact H|]. destruct k; apply clin_nil.
+  - destruct k as [|k]; cbn [nth]; [exact H|]. apply IH. now apply hstep_lin.
+Qed.
+
+Lemma nth_map_len {A B} (f : A -> list B) (l : list A) i (d : A) :
+  nth i (map f l) [] = if i <? length l then f (nth i l d) else [].
+Proof.
+  destruct (Nat.ltb_spec i (length l)) as [Hi|Hi].
+  - rewrite (nth_indep _ [] (f d)) by (now rewrite map_length). apply map_nth.
+  - apply nth_overflow. now rewrite map_length.
+Qed.
+
+Lemma hrr_lin L lb abx aby abz c1 c2 t t1 t2 bx by_ bz : clin c1 c2 t t1 t2 ->
+  clin c1 c2 (nth bz (nth by_ (nth bx (hrr K L lb abx aby abz t) []) []) [])
+             (nth bz (nth by_ (nth bx (hrr K L lb abx aby abz t1) []) []) [])
+             (nth bz (nth by_ (nth bx (hrr K L lb abx aby abz t2) []) []) []).
+Proof.
+  intros H. unfold hrr. rewrite !(nth_map_len _ _ bx ([] : cube (F:=F))), !hiter_length.
+  destruct (bx <? S lb); [|destruct by_, bz; apply clin_nil].
+  rewrite !(nth_map_len _ _ by_ ([] : cube (F:=F))), !hiter_length.
+  destruct (by_ <? S lb); [|destruct bz; apply clin_nil].
+  apply hiter_lin. apply hiter_lin. now apply hiter_lin.
+Qed.
+
+(* entries of the generalised one-electron model are linear in the contracted cube *)
+Lemma one_elec_point_gen_lin Ma Mb ctr ctr1 ctr2 c1 c2 sa sb ma ia mb ib :
+  (forall ma mb x y z, ctr ma mb x y z = c1 * ctr1 ma mb x y z + c2 * ctr2 ma mb x y z) ->
+  ma < Ma -> ia < ncomp sa -> mb < Mb -> ib < ncomp sb ->
+  nth4' ma ia mb ib (one_elec_point_gen Ma Mb ctr sa sb)
+  = c1 * nth4' ma ia mb ib (one_elec_point_gen Ma Mb ctr1 sa sb)
+    + c2 * nth4' ma ia mb ib (one_elec_point_gen Ma Mb ctr2 sa sb).
+Proof.
+  intros H Hma Hia Hmb Hib. unfold nth4', one_elec_point_gen. cbv zeta.
+  rewrite !(nth_mk Ma _ _ ma) by exact Hma.
+  assert (La : length (combine (comps_of sa) (map (inv_sqrt_df K) (comps_of sa))) = ncomp sa)
+    by (rewrite combine_length, map_length; apply Nat.min_id).
+  assert (Lb : length (combine (comps_of sb) (map (inv_sqrt_df K) (comps_of sb))) = ncomp sb)
+    by (rewrite combine_length, map_length; apply Nat.min_id).
+  rewrite !(nth_map_len _ _ ia ((0, 0, 0)%nat, 0)).
+  repeat match goal with |- context [ia <? ?n] =>
+    replace (ia <? n) with true
+      by (symmetry; apply Nat.ltb_lt; rewrite combine_length, map_length, Nat.min_id; exact Hia) end.
+  match goal with |- context [@nth ?T ia ?l ?d] => destruct (@nth T ia l d) as [[[ax ay] az] fa] end.
+  rewrite !(nth_mk Mb _ _ mb) by exact Hmb.
+  repeat match goal with |- context [nth ib (@map ?A ?B ?g ?l) 0] =>
+    rewrite (nth_indep (@map A B g l) 0 (g ((0, 0, 0)%nat, 0)))
+      by (rewrite map_length, combine_length, map_length, Nat.min_id; exact Hib);
+    rewrite (@map_nth A B g l ((0, 0, 0)%nat, 0) ib) end.
+  match goal with |- context [@nth ?T ib ?l ?d] => destruct (@nth T ib l d) as [[[bx by_] bz] fb] end.
+  rewrite (hrr_lin (s_l sa + s_l sb) (s_l sb) _ _ _ c1 c2 _
+             (mk (S (s_l sa + s_l sb)) (fun x => mk (S (s_l sa + s_l sb)) (fun y => mk (S (s_l sa + s_l sb)) (fun z => ctr1 ma mb x y z))))
+             (mk (S (s_l sa + s_l sb)) (fun x => mk (S (s_l sa + s_l sb)) (fun y => mk (S (s_l sa + s_l sb)) (fun z => ctr2 ma mb x y z))))
+             bx by_ bz).
+  - ring.
+  - intros x y z. rewrite !cget_mk3. destruct ((x <? _) && (y <? _) && (z <? _)); [apply H|ring].
+Qed.
+
+Section OELin.
+Variables Cx Cy Cz : F.
+Notation OE := (one_elec_point K Cx Cy Cz).
+
+(* 4. un-normalised linearity of the one-electron (point-charge) kernel, both shells *)
+Theorem oe_unnormalised_additive_a sa sb C1 C2 ma ia mb ib : same_shape C1 C2 ->
+  ma < nseg (set_coeffs sa C1) -> ia < ncomp sa -> mb < nseg sb -> ib < ncomp sb ->
+  nth4' ma ia mb ib (OE (set_coeffs sa (rows_add C1 C2)) sb)
+  = nth4' ma ia mb ib (OE (set_coeffs sa C1) sb) + nth4' ma ia mb ib (OE (set_coeffs sa C2) sb).
+Proof.
+  intros HS Hma Hia Hmb Hib. destruct (nseg_rows_add sa C1 C2 HS) as [N1 N2].
+  rewrite !one_elec_point_form, N1, N2, !prims_set_coeffs.
+  change (one_elec_point_gen ?a ?b ?c (set_coeffs sa ?C) sb) with (one_elec_point_gen a b c sa sb).
+  change (oe_ctr Cx Cy Cz (set_coeffs sa ?C) sb) with (oe_ctr Cx Cy Cz sa sb).
+  change (s_exps (set_coeffs sa ?C)) with (s_exps sa).
+  rewrite (one_elec_point_gen_lin _ _ _
+             (oe_ctr Cx Cy Cz sa sb (combine (s_exps sa) C1) (prims sb))
+             (oe_ctr Cx Cy Cz sa sb (combine (s_exps sa) C2) (prims sb)) 1 1 sa sb ma ia mb ib); try assumption.
+  - ring.
+  - intros. unfold oe_ctr. rewrite (dsum_add_a _ _ _ _ _ _ _ _ _ HS). ring.
+Qed.
+
+Theorem oe_unnormalised_homogeneous_a sa sb k C ma ia mb ib :
+  ma < nseg (set_coeffs sa C) -> ia < ncomp sa -> mb < nseg sb -> ib < ncomp sb ->
+  nth4' ma ia mb ib (OE (set_coeffs sa (rows_scale k C)) sb) = k * nth4' ma ia mb ib (OE (set_coeffs sa C) sb).
+Proof.
+  intros Hma Hia Hmb Hib.
+  rewrite !one_elec_point_form, nseg_rows_scale, !prims_set_coeffs.
+  change (one_elec_point_gen ?a ?b ?c (set_coeffs sa ?C) sb) with (one_elec_point_gen a b c sa sb).
+  change (oe_ctr Cx Cy Cz (set_coeffs sa ?C) sb) with (oe_ctr Cx Cy Cz sa sb).
+  change (s_exps (set_coeffs sa ?C)) with (s_exps sa).
+  rewrite (one_elec_point_gen_lin _ _ _
+             (oe_ctr Cx Cy Cz sa sb (combine (s_exps sa) C) (prims sb))
+             (oe_ctr Cx Cy Cz sa sb (combine (s_exps sa) C) (prims sb)) k 0 sa sb ma ia mb ib); try assumption.
+  - ring.
+  - intros. unfold oe_ctr. rewrite dsum_scale_a. ring.
+Qed.
+
+Theorem oe_unnormalised_additive_b sa sb C1 C2 ma ia mb ib : same_shape C1 C2 ->
+  ma < nseg sa -> ia < ncomp sa -> mb < nseg (set_coeffs sb C1) -> ib < ncomp sb ->
+  nth4' ma ia mb ib (OE sa (set_coeffs sb (rows_add C1 C2)))
+  = nth4' ma ia mb ib (OE sa (set_coeffs sb C1)) + nth4' ma ia mb ib (OE sa (set_coeffs sb C2)).
+Proof.
+  intros HS Hma Hia Hmb Hib. destruct (nseg_rows_add sb C1 C2 HS) as [N1 N2].
+  rewrite !one_elec_point_form, N1, N2, !prims_set_coeffs.
+  change (one_elec_point_gen ?a ?b ?c sa (set_coeffs sb ?C)) with (one_elec_point_gen a b c sa sb).
+  change (oe_ctr Cx Cy Cz sa (set_coeffs sb ?C)) with (oe_ctr Cx Cy Cz sa sb).
+  change (s_exps (set_coeffs sb ?C)) with (s_exps sb).
+  rewrite (one_elec_point_gen_lin _ _ _
+             (oe_ctr Cx Cy Cz sa sb (prims sa) (combine (s_exps sb) C1))
+             (oe_ctr Cx Cy Cz sa sb (prims sa) (combine (s_exps sb) C2)) 1 1 sa sb ma ia mb ib); try assumption.
+  - ring.
+  - intros. unfold oe_ctr. rewrite (dsum_add_b _ _ _ _ _ _ _ _ _ HS). ring.
+Qed.
+
+Theorem oe_unnormalised_homogeneous_b sa sb k C ma ia mb ib :
+  ma < nseg sa -> ia < ncomp sa -> mb < nseg (set_coeffs sb C) -> ib < ncomp sb ->
+  nth4' ma ia mb ib (OE sa (set_coeffs sb (rows_scale k C))) = k * nth4' ma ia mb ib (OE sa (set_coeffs sb C)).
+Proof.
+  intros Hma Hia Hmb Hib.
+  rewrite !one_elec_point_form, nseg_rows_scale, !prims_set_coeffs.
+  change (one_elec_point_gen ?a ?b ?c sa (set_coeffs sb ?C)) with (one_elec_point_gen a b c sa sb).
+  change (oe_ctr Cx Cy Cz sa (set_coeffs sb ?C)) with (oe_ctr Cx Cy Cz sa sb).
+  change (s_exps (set_coeffs sb ?C)) with (s_exps sb).
+  rewrite (one_elec_point_gen_lin _ _ _
+             (oe_ctr Cx Cy Cz sa sb (prims sa) (combine (s_exps sb) C))
+             (oe_ctr Cx Cy Cz sa sb (prims sa) (combine (s_exps sb) C)) k 0 sa sb ma ia mb ib); try assumption.
+  - ring.
+  - intros. unfold oe_ctr. rewrite dsum_scale_b. ring.
+Qed.
+End OELin.
+
 End P.
 
 (* ------------------------------------------------------------------ *)
